@@ -360,6 +360,36 @@ def exDiamondTree : Collect :=
 
 theorem C08_diamond_collectOf : collectOf exDiamond 50 = some exDiamondTree := by rfl
 
+/-- two non-abstract sub-supertypes in a chain below a ONEOF: `a SUPERTYPE OF (ONEOF(b, e))`, `b SUPERTYPE OF (c)`,
+`c SUPERTYPE OF (d ANDOR f)`; a=0 b=1 c=2 d=3 e=4 f=5.  Its list repeats the leaves `b` and `c` (`OR(b, AND(b, …))`) — the
+shape excluded from `C08_complete_partial`, on which the first acceptance picks the wrong alternative and the retry loop of
+`ComplexList::matches` is needed -/
+def exChain : Schema :=
+  [ { name := 0, abstract := false, supers := [], subs := [1, 4], expr := some (.oneof [.ent 1, .ent 4]) },
+    { name := 1, abstract := false, supers := [0], subs := [2], expr := none },
+    { name := 2, abstract := false, supers := [1], subs := [3, 5], expr := some (.andor (.ent 3) (.ent 5)) },
+    { name := 3, abstract := false, supers := [2], subs := [], expr := none },
+    { name := 4, abstract := false, supers := [0], subs := [], expr := none },
+    { name := 5, abstract := false, supers := [2], subs := [], expr := none } ]
+
+def exChainTree : Collect :=
+  [.and [.simple 0, .or [.or [.simple 1, .and [.simple 1, .andor [.or [.simple 2, .and [.simple 2,
+    .andor [.simple 3, .simple 5]]]]]], .simple 4]]]
+
+theorem C08_repeated_leaf_collectOf : collectOf exChain 50 = some exChainTree := by rfl
+
+/-- all sub-lists of a list of names -/
+def subsetsOf : List Name → List (List Name)
+  | [] => [[]]
+  | a :: as => subsetsOf as ++ (subsetsOf as).map (a :: ·)
+
+/-- on this repeated-leaf schema the composition `C08_accepts_iff_legal_partial` — which excludes it — holds all the same:
+for each of the 57 sets of at least two of its six entities the matcher model answers, and answers `true` exactly on the
+six legal ones (kernel-evaluated on the model; the real code is compared with the model on such schemas by the subsets
+stream of the check) -/
+theorem C08_repeated_leaf_example : ∀ parts ∈ subsetsOf [0, 1, 2, 3, 4, 5], 2 ≤ parts.length →
+    supports exChainTree [] parts = .ok (Legal exChain parts) := by decide +kernel
+
 /-- **Soundness with OrLists, the requirements half — every hierarchy, every request.**  Whenever `supports` answers
 `true` (collect of the shape exp2cxx emits, `headWF`; any nesting of OrLists below; request with or without members
 that have several supertypes), some list of the collect derives a set of names that lies inside the request: each AND
